@@ -159,7 +159,7 @@ EXPECTED_DISPATCH = {
 
 
 def dispatch_rule(ctx, report):
-    fn = ctx.index.get_function("pycaption/scc/__init__.py", "SCCReader._translate_command")
+    fn = ctx.index.get_function("pycaption/scc/__init__.py", "SCCReader._translate_command", inline=True, keep=("_roll_up", "_flush_implicit_buffers", "_pop_on"))
     report.covered(fn)
     folder = ctx.memo("folder", lambda: Folder(ctx.index))
     wordname = fn.params[1] if len(fn.params) > 1 else "word"
